@@ -59,7 +59,7 @@ theorem C06_no_keys {t : Expr} (h : ∀ k ∈ condKeys t, catOf k = some .hint) 
     | leaf a =>
       intro hs hl
       obtain ⟨k, rfl⟩ := hl a (by simp [Expr.atoms])
-      have := hs k (by simp [condKeys, Expr.atoms])
+      have := hs k (by simp [condKeys, Expr.atoms, Atom.condKey?])
       simp [neutralOnly, Expr.isFcLeaf, this]
     | bin o l r ihl ihr =>
       intro hs hl
